@@ -259,6 +259,13 @@ theorem C05_interval (mn mx x : Rat) (n : Nat) (hn : 2 ≤ n) (hlt : mn < mx) (h
     intervalDecode mn mx n (intervalEncode mn mx n x) - x < (mx - mn) / ((n : Rat) - 1) :=
   interval_err mn mx x n hn hlt hx1 hx2
 
+/-- **Defect (the hypotheses `min ≤ x ≤ max` of `C05_interval` are needed, and the code does not check them).** A value above
+the interval is given index `num_steps` and decodes to `max + step`, one below decodes to `min`: silently altered, not
+refused. (NaN and ±inf take the same two paths in the real code.) -/
+theorem C05_interval_outside_defect :
+    intervalDecode 10 20 21 (intervalEncode 10 20 21 25) = 41 / 2 ∧
+    intervalDecode 10 20 21 (intervalEncode 10 20 21 5) = 10 := by decide +kernel
+
 /-! ## Strings and bytes -/
 
 /-- String-array encoding (first-occurrence dictionary + indices) is lossless for every list
